@@ -35,6 +35,16 @@ def validate(v, trace, name):
                 # what precedes the missing word on its line?
                 line_start = e["text"].rfind("\n", 0, len("".join(list(e["text"])[:p["s"]]))) + 1
                 sig["multibyte_before"] = any(ord(c) > 127 for c in list(e["text"])[:p["s"]])
+                if e.get("lang") == "go":
+                    # is the word in a run of INDENTED comment lines that starts with a //go: directive?
+                    lines = e["text"].split("\n")
+                    li = e["text"].count("\n", 0, p["s"])
+                    j = li
+                    while j > 0 and lines[j - 1].lstrip().startswith("//") and not lines[j - 1].lstrip().startswith("//go:"):
+                        j -= 1
+                    head = lines[j - 1] if j > 0 else ""
+                    if head.lstrip().startswith("//go:") and lines[li][:1] in (" ", "\t"):
+                        sig["indented_block_behind_go_directive"] = True
             elif k:
                 sig["token"] = e["toks"][k - 1]["text"][:30]
             v.failure(sig, {"event": e, "which": k})
